@@ -201,6 +201,9 @@ def typeRef : Expr F → Option Ty
   | .call2 fn a b => (typeRef a).bind (fun ta => (typeRef b).bind (fun tb => sigType ctx fn [ta, tb]))
   | .call3 fn a b c =>
     (typeRef a).bind (fun ta => (typeRef b).bind (fun tb => (typeRef c).bind (fun tc => sigType ctx fn [ta, tb, tc])))
+  | .call4 fn a b c d =>
+    (typeRef a).bind (fun ta => (typeRef b).bind (fun tb => (typeRef c).bind (fun tc => (typeRef d).bind (fun td =>
+      sigType ctx fn [ta, tb, tc, td]))))
   | .callMany _ => none
 
 /-- big-step evaluation against one point. -/
@@ -252,6 +255,19 @@ def valRef : Expr F → Hist F → Outcome (Value F) × Hist F
           | x => x)
        | x => x)
     | x => x
+  | .call4 fn a b c d, h =>
+    match valRef a h with
+    | (.ok va, h1) =>
+      (match valRef b h1 with
+       | (.ok vb, h2) =>
+         (match valRef c h2 with
+          | (.ok vc, h3) =>
+            (match valRef d h3 with
+             | (.ok vd, h4) => refCall ctx fn [va, vb, vc, vd] h4
+             | x => x)
+          | x => x)
+       | x => x)
+    | x => x
   | .callMany _, h => (.err, h)
 
 /-- does the expression call a stateful function? -/
@@ -262,6 +278,8 @@ def stateful : Expr F → Bool
   | .call1 fn a => fn == "count" || fn == "sigma" || fn == "spread" || stateful a
   | .call2 fn a b => fn == "count" || fn == "sigma" || fn == "spread" || stateful a || stateful b
   | .call3 fn a b c => fn == "count" || fn == "sigma" || fn == "spread" || stateful a || stateful b || stateful c
+  | .call4 fn a b c d =>
+    fn == "count" || fn == "sigma" || fn == "spread" || stateful a || stateful b || stateful c || stateful d
   | .callMany fn => fn == "count" || fn == "sigma" || fn == "spread"
   | _ => false
 
